@@ -4,13 +4,13 @@
    Spec/RFC9204AppendixA.v (the static table as text). *)
 From H3V Require Import Base.Bytes Gen.GenStatic Spec.PrefixInt Spec.RFC7541Huffman Spec.HuffmanKnown
   Spec.RFC9204AppendixA Spec.RFC9204Static Spec.FieldSize
-  Model.PrefixInt Model.Huffman Model.PrefixString Model.Static Model.QpackStateless
-  Proofs.HuffmanDecodeProofs Proofs.StaticTableProofs Proofs.QpackSpecLemmas Proofs.QpackStatelessProofs Proofs.QpackEncodeProofs Proofs.QpackRoundtrip.
+  Model.PrefixInt Model.Huffman Model.PrefixString Model.Static Model.QpackStateless Model.SectionLimit
+  Proofs.HuffmanDecodeProofs Proofs.StaticTableProofs Proofs.QpackSpecLemmas Proofs.QpackStatelessProofs Proofs.QpackEncodeProofs Proofs.QpackRoundtrip Proofs.SectionLimitProofs.
 
 (* ================================================================ T1: h3 writes RFC 9204 *)
 
 (* order and duplicates are preserved because [section] relates the LIST fs, line by line; the returned size is
-   the RFC 9114 4.2.2 size.  [wf_field]: octets, lengths below 2^58 (a 64-bit address space) *)
+   the RFC 9114 4.2.2 size.  [wf_field]: octets, strings shorter than 2^26 (h3's Huffman codec addresses bits with u32) *)
 Theorem C11_encode_writes_rfc9204 :
   forall fs, Forall wf_field fs ->
     exists bs, encode_stateless fs = Ok (bs, section_size fs) /\ wf_bytes bs /\ section fs bs /\
@@ -133,11 +133,63 @@ Theorem C11_rejects_static_index_out_of_range :
     exists e, field_decode bs = Err e /\ decompression_failed e = true.
 Proof. exact reject_static_index_out_of_range. Qed.
 
-Theorem C11_rejects_truncated_or_oversized_integers :
-  forall bs, wf_bytes bs -> bs <> [] ->
-    (forall n, 1 <= n <= 8 -> pi_decode n bs = Err PiUnexpectedEnd \/ pi_decode n bs = Err PiOverflow) ->
-    exists e, field_decode bs = Err e /\ decompression_failed e = true.
-Proof. exact reject_truncated_or_oversized. Qed.
+(* truncated / overflowing integers and bad strings, position by position (pi_decode / ps_decode failing is
+   characterised against RFC 7541 5.1 / 5.2 by C15) *)
+Theorem C11_rejects_bad_prefix_integers :
+  forall max bs e, wf_bytes bs ->
+    (pi_decode 8 bs = Err e \/ exists f ric r, pi_decode 8 bs = Ok (f, ric, r) /\ pi_decode 7 r = Err e) ->
+    decode_stateless max bs = Err (DInvalidInteger e).
+Proof. exact reject_bad_prefix_integers. Qed.
+
+Theorem C11_rejects_indexed_bad_index :
+  forall first t e, wf_bytes (first :: t) -> 128 <= first -> pi_decode 6 (first :: t) = Err e ->
+    field_decode (first :: t) = Err (DInvalidInteger e).
+Proof. exact reject_indexed_bad_index. Qed.
+
+Theorem C11_rejects_name_reference_bad_index :
+  forall first t e, wf_bytes (first :: t) -> 64 <= first < 128 -> pi_decode 4 (first :: t) = Err e ->
+    field_decode (first :: t) = Err (DInvalidInteger e).
+Proof. exact reject_name_reference_bad_index. Qed.
+
+Theorem C11_rejects_name_reference_bad_value_string :
+  forall first t fl i r e, wf_bytes (first :: t) -> 64 <= first < 128 ->
+    pi_decode 4 (first :: t) = Ok (fl, i, r) -> ps_decode 8 r = Err e ->
+    field_decode (first :: t) = Err (DInvalidString e) \/ field_decode (first :: t) = Err (DInvalidInteger PiOverflow).
+Proof. exact reject_name_reference_bad_value. Qed.
+
+Theorem C11_rejects_literal_bad_name_string :
+  forall first t e, wf_bytes (first :: t) -> 32 <= first < 64 -> ps_decode 4 (first :: t) = Err e ->
+    field_decode (first :: t) = Err (DInvalidString e).
+Proof. exact reject_literal_bad_name. Qed.
+
+Theorem C11_rejects_literal_bad_value_string :
+  forall first t name r e, wf_bytes (first :: t) -> 32 <= first < 64 ->
+    ps_decode 4 (first :: t) = Ok (name, r) -> ps_decode 8 r = Err e ->
+    field_decode (first :: t) = Err (DInvalidString e).
+Proof. exact reject_literal_bad_value. Qed.
+
+(* ---- the call sites: production always passes a finite limit; acceptance under a limit is acceptance without one, so
+        T2 covers every acceptance; and a refusal that is not header-too-big is a CONNECTION error carrying
+        QPACK_DECOMPRESSION_FAILED = 0x200 at each of the three receive sites (codes read from the source) ---- *)
+Theorem C11_acceptance_under_a_limit_is_acceptance :
+  forall L bs r, decode_stateless (Some L) bs = Ok r -> decode_stateless None bs = Ok r.
+Proof. exact decode_limit_ok_is_unlimited_ok. Qed.
+
+Theorem C11_bad_section_is_connection_error_0x200_at_every_site :
+  forall own ps bs e, wf_bytes bs -> decode_stateless None bs = Err e ->
+    (forall site, In site [ro_result (server_recv_request own ps bs); ro_result (client_recv_response own ps bs);
+                           ro_result (server_recv_trailers own ps bs); ro_result (client_recv_trailers own ps bs)] ->
+       site = RecvConnError 512 \/ exists a m, site = RecvTooBig a m) /\
+    (decode_stateless (Some own) bs = Err e ->
+       ro_result (server_recv_request own ps bs) = RecvConnError 512 /\
+       ro_result (client_recv_response own ps bs) = RecvConnError 512 /\
+       ro_result (server_recv_trailers own ps bs) = RecvConnError 512 /\
+       ro_result (client_recv_trailers own ps bs) = RecvConnError 512).
+Proof.
+  intros own ps bs e Hwf He. split.
+  - exact (bad_section_at_receive_sites own ps bs e Hwf He).
+  - exact (bad_section_is_connection_error_512 own ps bs e Hwf He).
+Qed.
 
 (* a refused line refuses the section: [reaches r t] = t is what is left of r after some complete field lines *)
 Theorem C11_line_error_fails_section :
@@ -220,7 +272,14 @@ Print Assumptions C11_rejects_post_base_forms.
 Print Assumptions C11_rejects_dynamic_indexed.
 Print Assumptions C11_rejects_dynamic_name_reference.
 Print Assumptions C11_rejects_static_index_out_of_range.
-Print Assumptions C11_rejects_truncated_or_oversized_integers.
+Print Assumptions C11_rejects_bad_prefix_integers.
+Print Assumptions C11_rejects_indexed_bad_index.
+Print Assumptions C11_rejects_name_reference_bad_index.
+Print Assumptions C11_rejects_name_reference_bad_value_string.
+Print Assumptions C11_rejects_literal_bad_name_string.
+Print Assumptions C11_rejects_literal_bad_value_string.
+Print Assumptions C11_acceptance_under_a_limit_is_acceptance.
+Print Assumptions C11_bad_section_is_connection_error_0x200_at_every_site.
 Print Assumptions C11_line_error_fails_section.
 Print Assumptions C11_rejects_what_reference_rejects.
 Print Assumptions C11_static_rows_are_rfc9204_appendix_a.
